@@ -137,6 +137,44 @@ Theorem C09_aux : forall (H : bytes -> bytes) (b : builder) (t : tx),
 Proof. exact aux_hash. Qed.
 Print Assumptions C09_aux.
 
+
+(* additions-only histories (what the property quantifies over: items are added, the hash is computed by the builder):
+   no premise about an earlier hash is needed — a stored hash always comes with script items *)
+Theorem C09_same_bytes_additive : forall (H : bytes -> bytes) (ops : list op) (cm : costmdls) (before : list op) (t : tx),
+  additive H builder_new ops = true ->
+  last_calc_rev (rev ops) = Some (cm, before) ->
+  let b0 := fst (run H builder_new (rev before)) in
+  let b := fst (run H builder_new ops) in
+  is_ok (calc_script_data_hash H b0 cm) = true ->
+  build_tx H b = Ok t ->
+  let fs := ws_fields (tx_witness_set t) in
+  tx_script_data_hash t = ledger_script_integrity H (assoc_field 5 fs) (assoc_field 4 fs) (langs_used b) cm.
+Proof. exact same_bytes_additive. Qed.
+Print Assumptions C09_same_bytes_additive.
+
+(* C09_aux, history form: for EVERY history (set_auxiliary_data with constructed or decoded values, set_metadata,
+   add_metadatum / add_json_metadatum*, remove_auxiliary_data, in any number and order, interleaved with anything) the
+   transaction carries the auxiliary data the setters left and the body's hash is the hash of its serialisation *)
+Theorem C09_aux_history : forall (H : bytes -> bytes) (ops : list op) (t : tx),
+  build_tx H (fst (run H builder_new ops)) = Ok t ->
+  tx_aux t = aux_of_history ops /\
+  tx_aux_data_hash t = ledger_aux_hash H (match aux_of_history ops with Some a => Some (enc_aux a) | None => None end).
+Proof. exact aux_history. Qed.
+Print Assumptions C09_aux_history.
+
+(* the format preference alone changes the emitted bytes, so a hash kept from before such a change would be wrong *)
+Theorem C09_aux_format_flag : forall md : list (N * bytes),
+  enc_aux (mk_aux (Some md) None None false) <> enc_aux (mk_aux (Some md) None None true).
+Proof. exact (format_flag_changes_bytes (fun b => b)). Qed.
+Print Assumptions C09_aux_format_flag.
+
+(* the three wire forms: what AuxiliaryData decodes from a form the serializer itself produces re-serialises to the
+   same bytes (hence set_auxiliary_data(from_bytes(b)) emits and hashes exactly b) *)
+Theorem C09_aux_wire_reencode : forall (w : aux_wire) (a : aux_data),
+  decode_wire w = Ok a -> wire_canonical w = true -> enc_aux a = enc_wire w.
+Proof. exact wire_reencode. Qed.
+Print Assumptions C09_aux_wire_reencode.
+
 (* outside the quantifier: a script item added AFTER calc_script_data_hash leaves a stale hash, and build_tx does not
    detect it (the hashed preimage differs from the ledger's preimage of the emitted witness set) *)
 Theorem C09_stale_hash_not_detected : forall H : bytes -> bytes,
@@ -239,3 +277,10 @@ Example C09_bytes_premise_satisfiable :
   | _ => False
   end.
 Proof. vm_compute. reflexivity. Qed.
+Example C09_additive_premise_satisfiable : additive idH builder_new ex_ops = true.
+Proof. reflexivity. Qed.
+Example C09_wire_premises_satisfiable :
+  let w := WAlonzo (Some [(1, [24; 42])]) (Some [128]) (Some []) (Some [[1; 2]]) None in
+  wire_canonical w = true /\ is_ok (decode_wire w) = true /\
+  wire_canonical (WAlonzo None None None (Some [[1]]) None) = false.
+Proof. repeat split; reflexivity. Qed.
